@@ -1,18 +1,11 @@
 #!/bin/bash
-# benign.sh: applies every recorded behaviour-preserving refactoring (benign/*.diff, written by
-# independent sub-agents) to /repo's working tree in turn and runs all checks: any report is a
-# false alarm of the checker. Restores /repo after each.
+# benign.sh: analyses /repo with each recorded behaviour-preserving refactoring (benign/*.diff,
+# written by independent sub-agents) applied as an overlay and runs all checks: any report is a
+# false alarm of the checker. /repo is never modified.
 set -u
 cd /verif
-[ -n "$(git -C /repo status --porcelain)" ] && { echo "/repo is not clean"; exit 2; }
-n=0; bad=0
-for p in benign/*.diff; do
-  n=$((n+1))
-  git -C /repo apply "$(readlink -f $p)" || { echo "$p: does not apply (tree moved on): skipped"; continue; }
-  out=$(bin/crsverif -property ALL -repo /repo -verif /verif -no-evidence 2>&1)
-  git -C /repo checkout -q -- . ; git -C /repo clean -fdq
-  reps=$(echo "$out" | grep '^PROP .* REPORTS' | awk '{print $2}' | tr '\n' ' ')
-  if [ -n "$reps" ]; then bad=$((bad+1)); echo "FALSE-ALARM $p: $reps"; echo "$out" | grep '^    \[' | cut -c1-240 | head -3; fi
-done
-echo "SUMMARY benign_refactorings=$n false_alarms=$bad"
-[ $bad -eq 0 ]
+export GOFLAGS=-mod=mod GOPROXY=off GOSUMDB=off GOTOOLCHAIN=local; unset GOWORK
+ls benign/*.diff | xargs -P 6 -I{} sh -c 'out=$(bin/crsverif -property ALL -no-evidence -patch {} 2>&1); reps=$(echo "$out" | grep "^PROP .* REPORTS" | cut -d" " -f2 | tr "\n" " "); if echo "$out" | grep -q "^PATCH .* SKIPPED"; then echo "SKIPPED {}"; elif [ -n "$reps" ]; then echo "FALSE-ALARM {}: $reps"; echo "$out" | grep "^    \[" | cut -c1-240 | head -3; else echo "silent {}"; fi' | sort > /tmp/benign.$$
+grep -v '^silent' /tmp/benign.$$
+echo "SUMMARY benign_refactorings=$(grep -c . /tmp/benign.$$) silent=$(grep -c '^silent' /tmp/benign.$$) false_alarms=$(grep -c '^FALSE-ALARM' /tmp/benign.$$) skipped=$(grep -c '^SKIPPED' /tmp/benign.$$)"
+rc=0; grep -q '^FALSE-ALARM' /tmp/benign.$$ && rc=1; rm -f /tmp/benign.$$; exit $rc
